@@ -929,19 +929,47 @@ func HandleStore(deps ServerDeps, conn net.Conn, tag string, parts []string, sta
 		return
 	}
 
-	// Process each message in the sequence
+	// Resolve the addressed messages before anything is changed: a Junk / NonJunk move takes a message out of the
+	// mailbox and renumbers those behind it, so looking sequence numbers up one by one would address other messages
+	type storeTarget struct {
+		seqNum int
+		uid    int64
+	}
+	var targets []storeTarget
 	for _, seqNum := range sequences {
-		// Get message by sequence number
-		query := `
-			SELECT mm.message_id, mm.uid, mm.flags, mm.internal_date
+		var uid int64
+		err := userDB.QueryRow(`
+			SELECT mm.uid
 			FROM message_mailbox mm
 			WHERE mm.mailbox_id = ?
 			ORDER BY mm.uid ASC
 			LIMIT 1 OFFSET ?
-		`
-		var messageID, uid int64
+		`, state.SelectedMailboxID, seqNum-1).Scan(&uid)
+		if err != nil {
+			// Message not found - skip
+			continue
+		}
+		targets = append(targets, storeTarget{seqNum, uid})
+	}
+	var movedSeqNums []int
+
+	// Process each addressed message
+	for _, target := range targets {
+		uid := target.uid
+		// Its sequence number now: the messages before it that this command moved away no longer count
+		seqNum := target.seqNum
+		for _, m := range movedSeqNums {
+			if m < target.seqNum {
+				seqNum--
+			}
+		}
+		var messageID int64
 		var currentFlags, internalDate string
-		err := userDB.QueryRow(query, state.SelectedMailboxID, seqNum-1).Scan(&messageID, &uid, &currentFlags, &internalDate)
+		err := userDB.QueryRow(`
+			SELECT mm.message_id, mm.flags, mm.internal_date
+			FROM message_mailbox mm
+			WHERE mm.mailbox_id = ? AND mm.uid = ?
+		`, state.SelectedMailboxID, uid).Scan(&messageID, &currentFlags, &internalDate)
 		if err != nil {
 			// Message not found - skip
 			continue
@@ -972,6 +1000,7 @@ func HandleStore(deps ServerDeps, conn net.Conn, tag string, parts []string, sta
 				}
 			} else {
 				log.Printf("Auto-moved message %d to Spam folder (Junk flag added)", messageID)
+				movedSeqNums = append(movedSeqNums, target.seqNum)
 				// Send EXPUNGE notification to tell client the message is gone from this mailbox
 				if !silent {
 					deps.SendResponse(conn, fmt.Sprintf("* %d EXPUNGE", seqNum))
@@ -992,6 +1021,7 @@ func HandleStore(deps ServerDeps, conn net.Conn, tag string, parts []string, sta
 				}
 			} else {
 				log.Printf("Auto-moved message %d to INBOX (NonJunk flag added)", messageID)
+				movedSeqNums = append(movedSeqNums, target.seqNum)
 				// Send EXPUNGE notification to tell client the message is gone from this mailbox
 				if !silent {
 					deps.SendResponse(conn, fmt.Sprintf("* %d EXPUNGE", seqNum))
